@@ -184,7 +184,9 @@ CHECKS["C08"] = dict(
           "are unique (replace_in_dict_keeps_links_mirrored; no_relink_breaks_links = seed C05-a; shared_id_breaks_mirror "
           "= root of D2); a whole update whose order satisfies the checker's conditions leaves every attribute's value "
           "recording exactly the values currently held by what it reads, so every recorded ancestor is live "
-          "(accepted_update_keeps_graph_consistent, build_gives_consistent_graph). K-bookkeeping runs the model and the real code on "
+          "(accepted_update_keeps_graph_consistent, build_gives_consistent_graph); composed with the port of "
+          "attr_updates_chain run on the graph exported from the bookkeeping state, any number of input edits keeps the "
+          "graph consistent (edit_cycles_keep_graph_consistent). K-bookkeeping runs the model and the real code on "
           "the same random operation sequences; graphInv is evaluated by Lean on graphs exported after builds, "
           "histories, simulations and toggles. Completeness (true reads ⊆ recorded ancestors) is tested by perturbation "
           "only; list-held values are not in Model F. Findings D2, D6, D13 are known."),
